@@ -429,6 +429,134 @@ theorem c05_attrs_rounded_witness :
       (.token (tokWith (claims₀.dropLast ++ [("user", .obj [("id", .num 9007199254740993 0)])]))) now₀ =
       .accepted "9007199254740993" (.obj [("id", .num 9007199254740992 0)]) := by rfl
 
+/-! ## The subject id is the claim, octet for octet -/
+
+/-- subject taken from `sub`, attributes = the whole payload (the defaults of the mechanism) -/
+def cfgS : Config := { cfg₀ with subject := {} }
+
+/-- subject taken from a nested claim (`subject.id: ctx.user.id`) -/
+def cfgN : Config :=
+  { cfg₀ with subject := { idPath := [{ key := "ctx" }, { key := "user" }, { key := "id" }],
+                           attrsPath := some [{ key := "ctx" }, { key := "user" }] } }
+
+/-- the witness claims with another `sub` and a user name / nested id of the same spelling -/
+def claimsFor (s : String) : List (String × Val) :=
+  [("iss", .str "https://idp.example.com"), ("sub", .str s), ("preferred_username", .str s),
+   ("aud", .arr [.str "api"]), ("scp", .arr [.str "users.*"]), ("exp", .num 1700000300 0),
+   ("ctx", .obj [("user", .obj [("id", .str s), ("name", .str s)])])]
+
+/-- **`CreateSubject` takes the identifier as it stands.**  Whatever non-empty string the verified payload carries
+at the configured id path — with leading or trailing blanks, tabs, line breaks, no-break or zero-width spaces, in any
+case, any Unicode normalisation form, consisting of blanks only, looking like a number, a boolean or a JSON
+document — that very string is the subject id: nothing is trimmed, folded, normalised or refused. -/
+theorem c05_create_subject_verbatim (sc : SubjectConf) (pl : Val) (s : String) (kvs : List (String × Val))
+    (hid : pl.get sc.idPath = some (.str s)) (hne : s ≠ "") (hattrs : attrsSource sc pl = some (.obj kvs)) :
+    subject sc pl = .accepted s (Val.obj kvs).round := by
+  simp only [subject, hid, idString, hne, ↓reduceIte, hattrs]
+
+example : (Val.obj (claimsFor "admin ")).get cfgN.subject.idPath = some (.str "admin ") ∧ "admin " ≠ "" ∧
+    attrsSource cfgN.subject (.obj (claimsFor "admin ")) =
+      some (.obj [("id", .str "admin "), ("name", .str "admin ")]) := ⟨by rfl, by decide, by rfl⟩
+
+/-- **Subject id verbatim.**  For every accepted token whose verified payload carries a string at the configured id
+path (`sub` by default, `preferred_username`, `user.id`, … when configured), the subject id *is* that string — equal
+as a string, hence with the same UTF-8 octets and the same number of characters.  For all strings: no trimming, no
+case folding, no normalisation. -/
+theorem c05_subject_id_verbatim {cfg : Config} {rule : Option Expectation} {w : World} {tok : Token} {nowMs : Int}
+    {id : String} {attrs : Val} (h : authenticate cfg rule w (.token tok) nowMs = .accepted id attrs)
+    {pl : Val} {s : String} (hpl : tok.payload = some pl) (hs : pl.get cfg.subject.idPath = some (.str s)) :
+    id = s ∧ id.toUTF8 = s.toUTF8 ∧ id.length = s.length := by
+  obtain ⟨_, ⟨t, kvs, _, _, _, _, e1, _, _, hpl', _, _, _, hsub⟩, _⟩ := (c05_accept_iff ..).mp h
+  cases e1
+  rw [hpl] at hpl'; cases hpl'
+  obtain ⟨v, hv, hid, _⟩ := hsub
+  rw [hs] at hv; cases hv
+  simp only [idString, Option.some.injEq] at hid
+  subst hid
+  exact ⟨rfl, rfl, rfl⟩
+
+/-- accepted with trailing blank, leading blank, trailing line break, trailing tab (other claim), no-break space,
+zero-width space, blanks only, a decomposed `é`, a Cyrillic `а` — each id exactly as claimed; the attributes carry
+the same spelling -/
+example :
+    authenticate cfgS rule₀ world₀ (.token (tokWith (claimsFor "admin "))) now₀ =
+      .accepted "admin " (.obj (claimsFor "admin ")) ∧
+    authenticate cfgS rule₀ world₀ (.token (tokWith (claimsFor " admin"))) now₀ =
+      .accepted " admin" (.obj (claimsFor " admin")) ∧
+    authenticate cfgS rule₀ world₀ (.token (tokWith (claimsFor "admin\n"))) now₀ =
+      .accepted "admin\n" (.obj (claimsFor "admin\n")) ∧
+    authenticate { cfgS with subject := { idPath := [{ key := "preferred_username" }] } } rule₀ world₀
+      (.token (tokWith (claimsFor "admin\t"))) now₀ = .accepted "admin\t" (.obj (claimsFor "admin\t")) ∧
+    authenticate cfgN rule₀ world₀ (.token (tokWith (claimsFor "admin\u00a0"))) now₀ =
+      .accepted "admin\u00a0" (.obj [("id", .str "admin\u00a0"), ("name", .str "admin\u00a0")]) ∧
+    authenticate cfgN rule₀ world₀ (.token (tokWith (claimsFor "admin\u200b"))) now₀ =
+      .accepted "admin\u200b" (.obj [("id", .str "admin\u200b"), ("name", .str "admin\u200b")]) ∧
+    authenticate cfgS rule₀ world₀ (.token (tokWith (claimsFor "   "))) now₀ =
+      .accepted "   " (.obj (claimsFor "   ")) ∧
+    authenticate cfgS rule₀ world₀ (.token (tokWith (claimsFor "e\u0301"))) now₀ =
+      .accepted "e\u0301" (.obj (claimsFor "e\u0301")) ∧
+    authenticate cfgS rule₀ world₀ (.token (tokWith (claimsFor "\u0430dmin"))) now₀ =
+      .accepted "\u0430dmin" (.obj (claimsFor "\u0430dmin")) ∧
+    authenticate cfgS rule₀ world₀ (.token (tokWith (claimsFor ""))) now₀ = .rejected .subjectId := by
+  refine ⟨by rfl, by rfl, by rfl, by rfl, by rfl, by rfl, by rfl, by rfl, by rfl, by rfl⟩
+
+/-- the hypotheses of `c05_subject_id_verbatim` at an id with a trailing blank: the conclusion distinguishes it from
+the id without the blank -/
+example : ∃ id attrs, authenticate cfgS rule₀ world₀ (.token (tokWith (claimsFor "admin "))) now₀ = .accepted id attrs ∧
+    (Val.obj (claimsFor "admin ")).get cfgS.subject.idPath = some (.str "admin ") ∧ id ≠ "admin" ∧ id.length = 6 :=
+  ⟨"admin ", .obj (claimsFor "admin "), by rfl, by rfl, by decide, by decide⟩
+
+/-- **Different identifiers, different subjects.**  Two accepted tokens — under whatever configurations, key sets
+and instants — whose id claims differ as strings (equivalently: as sequences of UTF-8 octets) never yield the same
+subject id: `admin`, `admin␠`, `␠admin`, `admin\n`, `Admin`, `é` and `e◌́` are all different principals. -/
+theorem c05_distinct_ids_distinct_subjects {cfg cfg' : Config} {rule rule' : Option Expectation} {w w' : World}
+    {tok tok' : Token} {nowMs nowMs' : Int} {id id' : String} {attrs attrs' : Val}
+    (h : authenticate cfg rule w (.token tok) nowMs = .accepted id attrs)
+    (h' : authenticate cfg' rule' w' (.token tok') nowMs' = .accepted id' attrs')
+    {pl pl' : Val} {s s' : String} (hpl : tok.payload = some pl) (hpl' : tok'.payload = some pl')
+    (hs : pl.get cfg.subject.idPath = some (.str s)) (hs' : pl'.get cfg'.subject.idPath = some (.str s')) :
+    (s ≠ s' → id ≠ id') ∧ (s.toUTF8 ≠ s'.toUTF8 → id.toUTF8 ≠ id'.toUTF8) := by
+  obtain ⟨rfl, _, _⟩ := c05_subject_id_verbatim h hpl hs
+  obtain ⟨rfl, _, _⟩ := c05_subject_id_verbatim h' hpl' hs'
+  exact ⟨fun hne => hne, fun hne => hne⟩
+
+/-- `admin` and `admin␠` (trailing blank) presented to the same authenticator: both accepted, two subjects -/
+example : ∃ id id' attrs attrs',
+    authenticate cfgS rule₀ world₀ (.token (tokWith (claimsFor "admin"))) now₀ = .accepted id attrs ∧
+    authenticate cfgS rule₀ world₀ (.token (tokWith (claimsFor "admin "))) now₀ = .accepted id' attrs' ∧
+    "admin" ≠ "admin " ∧ id ≠ id' :=
+  ⟨"admin", "admin ", .obj (claimsFor "admin"), .obj (claimsFor "admin "), by rfl, by rfl, by decide, by decide⟩
+
+/-- **Attribute strings verbatim.**  Every string found in the attributes of an accepted request — at any depth —
+is, unchanged, the string at the same place of the verified payload's attributes object, and every string of that
+object arrives: rounding to doubles (known finding `C05-attrs-float64`) concerns numbers only. -/
+theorem c05_attribute_strings_verbatim {cfg : Config} {rule : Option Expectation} {w : World} {tok : Token}
+    {nowMs : Int} {id : String} {attrs : Val} (h : authenticate cfg rule w (.token tok) nowMs = .accepted id attrs)
+    (path : List Seg) (s : String) :
+    attrs.get path = some (.str s) ↔
+      ∃ pl src, tok.payload = some pl ∧ attrsSource cfg.subject pl = some src ∧ src.get path = some (.str s) := by
+  obtain ⟨_, ⟨t, kvs, _, _, _, _, e1, _, _, hpl, _, _, _, hsub⟩, rfl⟩ := (c05_accept_iff ..).mp h
+  cases e1
+  obtain ⟨_, _, _, _, o, rfl, hsrc⟩ := hsub
+  rw [get_round]
+  constructor
+  · intro hg
+    cases hv : (Val.obj o).get path with
+    | none => rw [hv] at hg; cases hg
+    | some v =>
+      rw [hv] at hg
+      simp only [Option.map_some, Option.some.injEq] at hg
+      rw [(round_eq_str v s).mp hg] at hv
+      exact ⟨_, _, hpl, hsrc, hv⟩
+  · rintro ⟨pl, src, hpl', hsrc', hg⟩
+    rw [hpl] at hpl'; cases hpl'
+    rw [hsrc] at hsrc'; cases hsrc'
+    rw [hg]; rfl
+
+example : ∃ id attrs, authenticate cfgN rule₀ world₀ (.token (tokWith (claimsFor " admin\t"))) now₀ = .accepted id attrs ∧
+    attrs.get [{ key := "name" }] = some (.str " admin\t") :=
+  ⟨" admin\t", .obj [("id", .str " admin\t"), ("name", .str " admin\t")], by rfl, by rfl⟩
+
 /-! ## Scope matching strategies -/
 
 /-- **The three matching strategies decide the relations of the specification**: exact = equality; hierarchic = the
